@@ -295,6 +295,32 @@ func (s *VerifStore) AbandonStore() {
 // VerifLockFree reports whether nobody holds the store lock (used between
 // statements, when no goroutine of the engine is running: a lock still held
 // then was leaked by the statement that just returned).
+// VerifWatchReadLocks installs a monitor on the store-lock operations of the calling goroutine's statements
+// (single-threaded use, no scheduler): it returns a function that reports how often the shared lock was
+// requested while it was already held since the last call. Go's RWMutex forbids that: the second request
+// blocks for ever as soon as a writer (the flush timer) asks for the lock in between.
+func VerifWatchReadLocks() (recursive func() int) {
+	depth, hits := 0, 0
+	vhPoint = func(f *fileStore, kind string) {
+		switch kind {
+		case "rlock":
+			if depth > 0 {
+				hits++
+			}
+			depth++
+		case "runlock":
+			if depth > 0 {
+				depth--
+			}
+		}
+	}
+	return func() int {
+		h := hits
+		hits, depth = 0, 0
+		return h
+	}
+}
+
 func VerifLockFree(rs *RelationService) bool {
 	if rs == nil {
 		return true
